@@ -194,7 +194,10 @@ Definition sparse_sigma (cols : list (list Z)) (chans : list Z) (r : trec) : opt
   omap (position_of chans (kept_positions cols chans)) (t_channels r).
 Definition sparse_channels_b (cols : list (list Z)) (chans : list Z) (r : trec) : bool :=
   match sparse_sigma cols chans r with
-  | Some sigma => perm_b sigma (kept_positions cols chans) && nl_eqb (t_channels r) (map (chan_at chans) sigma)
+  | Some sigma => let kept := kept_positions cols chans in
+                  (* sigma is a permutation of kept: no repetition, same length, every element kept *)
+                  nodup_b sigma && Nat.eqb (length sigma) (length kept) && forallb (fun i => memb i kept) sigma &&
+                  nl_eqb (t_channels r) (map (chan_at chans) sigma)
   | None => false
   end.
 Definition sparse_aligned_b (W cols : list (list Z)) (chans : list Z) (unwhiten : bool) (r : trec) : bool :=
